@@ -348,7 +348,7 @@ fn same_comments(a: &UniqueSortedVec<Arc<str>>, b: &UniqueSortedVec<Arc<str>>) -
     a.len() == b.len() && (a.is_empty() || *a[0] == *b[0])
 }
 
-//@H props=C17,C04 tier=quick kind=bounded cap=1800 mem=medium bound="1 input range, comment set of 1 string" domain="bounds anywhere in 00:00..=48:00, all kinds"
+//@H props=C17,C04 tier=off kind=bounded cap=1800 mem=heavy note="out of reach: CBMC exceeds 24 GB on one range with one Arc<str> comment" bound="1 input range, comment set of 1 string" domain="bounds anywhere in 00:00..=48:00, all kinds"
 #[cfg_attr(kani, kani::proof)]
 #[cfg_attr(kani, kani::unwind(4))]
 #[cfg_attr(kani, kani::stub(core::slice::sort::unstable::sort, sort_model))]
@@ -365,7 +365,7 @@ fn sched_comments_from_ranges_1() {
     vcover!("comments_from_ranges.nonempty", out.inner.len() == 1);
 }
 
-//@H props=C17,C04 tier=quick kind=bounded cap=2400 mem=medium bound="schedule of 1 range with a comment set of 1 string" domain="bounds anywhere in 00:00..=48:00, all kinds, query minute 00:00..23:59"
+//@H props=C17,C04 tier=off kind=bounded cap=2400 mem=heavy note="out of reach: CBMC runs out of memory" bound="schedule of 1 range with a comment set of 1 string" domain="bounds anywhere in 00:00..=48:00, all kinds, query minute 00:00..23:59"
 #[cfg_attr(kani, kani::proof)]
 #[cfg_attr(kani, kani::unwind(5))]
 #[cfg_attr(verif_replay, test)]
